@@ -808,7 +808,7 @@ impl App {
             }
             let op = op.op.clone();
             self.op_i += 1;
-            if self.closed_locally {
+            if self.closed_locally || !self.lost.is_empty() {
                 continue;
             }
             match op {
